@@ -952,6 +952,25 @@ func (p *Prog) freshRef(v ssa.Value, d int, seen map[ssa.Value]bool) bool {
 		return true
 	case *ssa.Const:
 		return x.Value == nil // nil slice/map/pointer: nothing shared behind it
+	case *ssa.Parameter:
+		// a parameter of a private helper: fresh when every call site hands in an object that is fresh there (the
+		// helper is part of its caller's construction of that object)
+		h := x.Parent()
+		if !p.PrivateHelper(h) {
+			return false
+		}
+		idx := paramIdx(x)
+		sites := p.Callers(h)
+		if idx < 0 || len(sites) == 0 {
+			return false
+		}
+		for _, s := range sites {
+			as := s.Common().Args
+			if idx >= len(as) || !p.freshRef(as[idx], d+2, map[ssa.Value]bool{}) {
+				return false
+			}
+		}
+		return true
 	case *ssa.FieldAddr:
 		return p.freshRef(x.X, d+1, seen)
 	case *ssa.IndexAddr:
@@ -1444,9 +1463,27 @@ func BoolCasesAt(f *ssa.Function, idx int) []BoolCase {
 // provably hold inside the helper whenever it produces that result (the
 // intersection over its feasible cases). Those literals are expressed over
 // the helper's own values. Literals nothing is known about are kept.
-func (p *Prog) ExpandLits(ls []Lit) []Lit {
+func (p *Prog) ExpandLits(ls []Lit) []Lit { return p.expandLits(ls, false) }
+
+// ExpandLitsKeep is ExpandLits that also keeps the expanded literal itself.
+func (p *Prog) ExpandLitsKeep(ls []Lit) []Lit { return p.expandLits(ls, true) }
+
+func (p *Prog) expandLits(ls []Lit, keep bool) []Lit {
 	var out []Lit
 	for _, l := range ls {
+		// `helper(...) == nil` / `_, err := helper(...); err != nil`: the literals common to the returns of the private
+		// helper that can produce that outcome
+		if l.Kind == "cmp" && l.Op == token.EQL && (IsNilConst(l.X) || IsNilConst(l.Y)) {
+			v := l.X
+			if IsNilConst(v) {
+				v = l.Y
+			}
+			if more, ok := p.nilOutcomeLits(v, l.Pol); ok {
+				out = append(out, l)
+				out = append(out, more...)
+				continue
+			}
+		}
 		var cl *ssa.Call
 		idx := -1
 		switch l.Kind {
@@ -1502,6 +1539,9 @@ func (p *Prog) ExpandLits(ls []Lit) []Lit {
 			out = append(out, l)
 			continue
 		}
+		if keep {
+			out = append(out, l)
+		}
 		var keys []string
 		for key := range common {
 			keys = append(keys, key)
@@ -1548,4 +1588,97 @@ func HelperImplies(h *ssa.Function, pol bool, ok func(Lit) bool) bool {
 		}
 	}
 	return true
+}
+
+// knownNonNil: v cannot be nil where return r executes.
+func knownNonNil(v ssa.Value, r *ssa.Return) bool {
+	switch v.(type) {
+	case *ssa.Alloc, *ssa.MakeClosure, *ssa.MakeMap, *ssa.MakeSlice, *ssa.MakeChan, *ssa.FieldAddr, *ssa.IndexAddr, *ssa.Function:
+		return true
+	case *ssa.MakeInterface:
+		return true
+	}
+	for _, l := range Lits(Guards(r.Block())) {
+		if l.Kind == "cmp" && l.Op == token.EQL && !l.Pol {
+			if (l.X == v && IsNilConst(l.Y)) || (l.Y == v && IsNilConst(l.X)) {
+				return true
+			}
+		}
+	}
+	return false
+}
+
+// nilOutcomeLits: v is the (idx-th) result of a call of a private helper; wantNil selects the outcome. Returns the
+// literals (over the helper's own values, recursively expanded) that hold on every return of the helper that can
+// produce that outcome.
+func (p *Prog) nilOutcomeLits(v ssa.Value, wantNil bool) ([]Lit, bool) {
+	var cl *ssa.Call
+	idx := 0
+	switch x := v.(type) {
+	case *ssa.Call:
+		cl = x
+	case *ssa.Extract:
+		cl, _ = x.Tuple.(*ssa.Call)
+		idx = x.Index
+	}
+	if cl == nil {
+		return nil, false
+	}
+	h := cl.Common().StaticCallee()
+	if !p.PrivateHelper(h) {
+		return nil, false
+	}
+	var common map[string]Lit
+	n := 0
+	for _, r := range Returns(h) {
+		ops := ReturnOperand(r, idx)
+		if len(ops) == 0 {
+			return nil, false
+		}
+		feasible := false
+		for _, o := range ops {
+			switch {
+			case IsNilConst(o):
+				if wantNil {
+					feasible = true
+				}
+			case knownNonNil(o, r):
+				if !wantNil {
+					feasible = true
+				}
+			default:
+				feasible = true
+			}
+		}
+		if !feasible {
+			continue
+		}
+		m := map[string]Lit{}
+		for _, x := range p.ExpandLitsKeep(Lits(Guards(r.Block()))) {
+			m[x.String()] = x
+		}
+		if n == 0 {
+			common = m
+		} else {
+			for k := range common {
+				if _, ok := m[k]; !ok {
+					delete(common, k)
+				}
+			}
+		}
+		n++
+	}
+	if n == 0 {
+		return nil, false
+	}
+	var keys []string
+	for k := range common {
+		keys = append(keys, k)
+	}
+	sort.Strings(keys)
+	var out []Lit
+	for _, k := range keys {
+		out = append(out, common[k])
+	}
+	return out, true
 }
